@@ -2,6 +2,7 @@ package props
 
 import (
 	"fmt"
+	"go/constant"
 	"go/types"
 	"strings"
 
@@ -103,7 +104,7 @@ func ruleC11Wire(e *Env) {
 		return
 	}
 	e.S.Ok(rule, site, "length", "7 bytes", e.Pos(mb))
-	ver, _ := tabConstInt(e, "date", "version")
+	ver := int64(1) // the documented format version (C11: "seven bytes (version 1, …)"), whatever the constant is called
 	if k, ok := intOf(wire.Elems[0].V); ok && k == 1 && ver == 1 {
 		e.S.Ok(rule, site, "byte 0", "version constant 1", e.Pos(mb))
 	} else {
@@ -212,7 +213,7 @@ func ruleC11Strict(e *Env) {
 		return
 	}
 	site := flow.FnName(ub)
-	ver, _ := tabConstInt(e, "date", "version")
+	ver := int64(1) // the documented format version (C11: "seven bytes (version 1, …)"), whatever the constant is called
 	keyOf := func(x, y pred.Val) (string, bool) {
 		c, ok := y.(pred.Const)
 		if !ok || c.V == nil {
@@ -243,7 +244,27 @@ func ruleC11Strict(e *Env) {
 		return []pred.Val{pred.Ptr{Cell: recv}, pred.Sym{Name: "data"}}
 	}
 	treeSnapshot = func() string { return fmt.Sprint(recv.V) }
-	leaves, err := extractTree(e.P.SSA, ub, mk, map[string]pred.Summary{}, nil, keyOf, binDomain, prune)
+	// the construction and the calendar guard behind the three envelope tests are C11.inv / C11.range's business: here
+	// New and Date() stay uninterpreted and the guard is taken to pass
+	sums := map[string]pred.Summary{
+		"go.lstv.dev/util/date.New": func(ev *pred.Evaluator, args []pred.Val) (pred.Val, error) {
+			return pred.Term{Fn: "New", Args: args}, nil
+		},
+		"(go.lstv.dev/util/date.Date).Date": func(ev *pred.Evaluator, args []pred.Val) (pred.Val, error) {
+			return pred.Tuple{pred.Term{Fn: "Date#0", Args: args}, pred.Term{Fn: "Date#1", Args: args}, pred.Term{Fn: "Date#2", Args: args}}, nil
+		},
+		"(go.lstv.dev/util/date.Date).Equal": func(ev *pred.Evaluator, args []pred.Val) (pred.Val, error) {
+			return pred.Const{V: constant.MakeBool(true)}, nil
+		},
+	}
+	fixed := func(x, y pred.Val) (int, bool, bool) {
+		xs, ys := x.String(), y.String()
+		if strings.Contains(xs, "New(") && strings.Contains(xs, "Date#") || strings.Contains(ys, "New(") && strings.Contains(ys, "Date#") {
+			return 0, true, true // calendar round-trip guard passes
+		}
+		return 0, false, false
+	}
+	leaves, err := extractTree(e.P.SSA, ub, mk, sums, fixed, keyOf, binDomain, prune)
 	treeSnapshot = nil
 	if err != nil {
 		e.S.Unk(rule, site, "table", err.Error(), e.Pos(ub))
@@ -263,6 +284,9 @@ func ruleC11Strict(e *Env) {
 			return 0
 		}
 		empty, seven, vok := get("len==0"), get("len==7"), get(verKey)
+		if seven == 1 && empty == 2 {
+			empty = 0 // a length of seven is not zero, asked or not
+		}
 		foreign := ""
 		for k := range lf.Assign {
 			if strings.HasPrefix(k, "data[0]==") && k != verKey || strings.HasPrefix(k, "len==") && k != "len==0" && k != "len==7" {
@@ -283,6 +307,10 @@ func ruleC11Strict(e *Env) {
 			want = "ErrInvalidLength"
 		case empty == 0 && vok == 1 && seven == 1:
 			want = "decode"
+		}
+		if lf.Err != nil {
+			e.S.Unk(rule, site, construct, lf.Err.Error(), e.Pos(ub))
+			continue
 		}
 		got := "decode"
 		if lf.Err == nil {
